@@ -19,7 +19,7 @@ META = {
                   "reachable chain state x every operation (read(0..4), seek Start/Current/End inside [0,len]); archives of "
                   "<=2 members (thorough: also 3) over names of <=3 components from {name, .., ., empty, absolute} x 5 pattern "
                   "classes. Every such transition is executed on the real chain (zero drift required for the fast path); "
-                  "quick: all 3.6k archives x patterns of the small name universe plus a seeded sample of the medium one; thorough: all (~200k).",
+                  "quick: all 3.6k archives x patterns of the small name universe plus a seeded sample of the medium one; thorough: all 30k of small+medium plus a 60k sample of the two large enumerations.",
     "level_note": "Narrower readings: seeks only to targets inside [0,len] (seeking beyond the end is clamped by design); "
                   "archives in which two members denote the same raw name or the same target path are outside the driver's "
                   "domain (the zip writer refuses duplicates; which alias survives is not fixed by the statement); file "
@@ -108,6 +108,8 @@ def binding_selftest(ctx, scases, sv, xcases, xv, kf):
 
 def _run_selftest(ctx, name, module, muts, consts):
     if not muts:
+        if ctx.violations:      # the code under test is broken so badly that no suitable accepted case exists: the verdict stands
+            return {"skipped": "no accepted case to corrupt (run has violations)"}
         raise c.ToolError("binding self-test %s: no accepted case to corrupt" % name)
     path = ctx.path("selftest-%s.ndjson" % name)
     with open(path, "w") as f:
@@ -143,9 +145,9 @@ def check(ctx):
     # (a) model checking: non-empty volumes satisfy the contract; with empty volumes the ONLY deviation is the known one;
     #     the proposed repair (skip empty volumes) satisfies the contract on the model
     c.tlc_must_pass(ctx, "seek-nonempty", "SeekChain.tla", "SeekChain_nonempty%s.cfg" % sfx, timeout=3000)
-    c.tlc_must_pass(ctx, "seek-empty-okorkf", "SeekChain.tla", "SeekChain_%s.cfg" % ("quick" if quick else "thorough"), timeout=3000)
     c.tlc_must_pass(ctx, "seek-fixed-model", "SeekChain.tla", "SeekChain_fixed%s.cfg" % sfx, timeout=3000)
-    # (b) scenario emission: one line per transition with predicted results
+    # (b) empty volumes allowed: invariant OkOrKF (the known deviation is the only one) + scenario emission: one line per
+    #     transition with predicted results
     res = c.tlc_must_pass(ctx, "seek-emit", "SeekChain.tla", "SeekChain_emit%s.cfg" % sfx, timeout=3000)
     scns = c.scn_lines(res)
     if not scns:
@@ -154,9 +156,9 @@ def check(ctx):
     write_scn(scn_path, scns)
     # (c, d) replay + random
     strace = ctx.path("seek-trace.ndjson")
-    nrand = 400 if quick else 6000
+    nrand = 250 if quick else 6000
     sinfo = drive(binp, ["--mode", "seek", "--scenarios", scn_path, "--random", str(nrand), "--seed", str(ctx.seed),
-                         "--out", strace, "--tmp", tmp, "--repo", c.REPO, "--sample", "300" if quick else "2000",
+                         "--out", strace, "--tmp", tmp, "--repo", c.REPO, "--sample", "200" if quick else "2000",
                          "--max-total", "300" if quick else "3000", "--repo-cases", "5" if quick else "40"])
     # (e) trace validation
     sv = c.validate_trace(ctx, "seek", "SeekChainTrace.tla", strace, {"KF_C20_EmptyVolume": kf["KF_C20_EmptyVolume"]}, timeout=3000)
@@ -165,10 +167,10 @@ def check(ctx):
     s_ok = report(ctx, "SeekChain", sv, scases, kf)
 
     # ------------------------------------------------------------------ part 2: extraction
-    # enumerated completely and replayed completely: Extract_quick (quick) / + medium, thorough2, thorough3 (thorough);
-    # quick additionally replays a seeded sample of the medium enumeration
-    full_cfgs = ["Extract_quick.cfg"] if quick else ["Extract_quick.cfg", "Extract_medium.cfg", "Extract_thorough2.cfg", "Extract_thorough3.cfg"]
-    samp_cfgs = ["Extract_medium.cfg"] if quick else []
+    # enumerated completely and replayed completely: Extract_quick (quick) / + medium (thorough); additionally a seeded
+    # sample of the medium enumeration (quick) / of thorough2 + thorough3 (thorough, 60k of ~180k) is replayed
+    full_cfgs = ["Extract_quick.cfg"] if quick else ["Extract_quick.cfg", "Extract_medium.cfg"]
+    samp_cfgs = ["Extract_medium.cfg"] if quick else ["Extract_thorough2.cfg", "Extract_thorough3.cfg"]
     seen = set()
 
     def enum(cfgs):
@@ -190,7 +192,7 @@ def check(ctx):
     xscn2 = ctx.path("extract-scenarios-sampled.ndjson")
     write_scn(xscn1, full)
     write_scn(xscn2, samp)
-    take = 1200
+    take = 800 if quick else 60000
     xi1 = drive(binp, ["--mode", "extract", "--scenarios", xscn1, "--seed", str(ctx.seed), "--out", xtrace + ".1", "--tmp", tmp])
     xi2 = drive(binp, ["--mode", "extract", "--scenarios", xscn2, "--take", str(take), "--seed", str(ctx.seed + 1),
                        "--out", xtrace + ".2", "--tmp", tmp, "--first-case", str(xi1["cases"])])
@@ -258,7 +260,8 @@ def check(ctx):
     missing = [k for k in need_s if not sinfo["paths"].get(k)] + [k for k in need_x if not xp.get(k)]
     if sinfo["predicted_not_ok"] == 0:
         missing.append("model: no empty-volume deviation reached")
-    if missing:
+    ctx.extra["paths_never_exercised"] = missing
+    if missing and not ctx.violations:      # (with violations the code may be too broken to reach a path: the verdict stands)
         raise c.ToolError("vacuity: paths never exercised: %s" % missing)
     ks = list(scases)
     kx = list(xcases)
